@@ -5,7 +5,7 @@ import ast
 
 from .. import sym, api
 from ..sym import Rat, C
-from ..values import Num, Const, Tup, Term, Obj, P, Val, Kw, veq, walk_vals, arr_param, term_as_num
+from ..values import Num, Const, Tup, Term, Obj, P, Val, Kw, veq, walk_vals, arr_param, term_as_num, gamma, p_not
 from ..model import AnalysisError
 from ..symeval import Evaluator
 from ..weaver_model import WeaverModel
@@ -59,6 +59,27 @@ def check_constant(ctx):
     L, Ln = sym.sym('L'), sym.sym('Ln')
     x, y, nx = arr_param('x', length=L), arr_param('y', length=L), arr_param('new_x', length=Ln)
     for tag, left in (('left omitted', Const(None)), ('left given', S('left'))):
+        # element-wise reading first: whatever the order of gathers, masks and stores, point i gets y[index[i]] when new_x[i] >= x[0] and the left value otherwise
+        eev = Evaluator(ctx.prog, inline=inline_except(*SCANS), opaque_kind=REPO_RESULT_KIND, elementwise=True)
+        try:
+            eres, _ = eev.run_function(fi, args={'x': x, 'y': y, 'new_x': nx, 'left': left})
+        except AnalysisError:
+            eres = None
+        if eres is not None and not eev.issues and isinstance(eres, Num) and eres.length is not None:
+            calls_ = [e for e in eev.events if e.kind == 'call' and e.data['callee'] is not None and e.data['callee'].qualname == SCANS[0]]
+            if len(calls_) == 1:
+                b_ = calls_[0].data['bound']
+                fillv = b_.get('fill_not_valid')
+                ok_call = same(b_.get('x'), x) and same(b_.get('lookup'), nx) and (fillv is None or (isinstance(fillv, Const) and fillv.v is True))
+                idx_i = term_as_num(calls_[0].data['term'], True, 'ndarray').at(sym.idx())
+                lv = left.r if isinstance(left, Num) else y.at(C(0)).r
+                want_i = gamma(p_not(P('<', nx, Num(x.at(C(0)).r))), Num(y.at(idx_i.r).r, Ln, 'ndarray'), Num(lv, Ln, 'ndarray'))
+                if ok_call and isinstance(want_i, Num) and eres.r == want_i.r and eres.length == Ln:
+                    ctx.ok('C13.2', f"{tag}: point i takes y[lower(new_x)[i]] when new_x[i] >= x[0], otherwise the left value (element-wise closed form)",
+                           show(eres, 200), fi.loc(), fi.qualname, f"closed:{tag}")
+                    from .. import dtypes as _dt
+                    ctx.check(_dt.dtype_of(eres) != _dt.INT, 'C13.2', f"{tag}: the result is not an integer buffer", f"{_dt.dtype_of(eres)}", fi.loc(), fi.qualname, f"fresh:{tag}")
+                    continue
         ev = Evaluator(ctx.prog, inline=inline_except(*SCANS), opaque_kind=REPO_RESULT_KIND)
         res, st = ev.run_function(fi, args={'x': x, 'y': y, 'new_x': nx, 'left': left})
         if ev.issues:
